@@ -838,10 +838,13 @@ def run(ctx: core.Ctx):
         "sampled (max_pairs < total) estimates are only required to be reproducible under a seed, not exact",
     ]
     errs = tarith.write({"_rows_needed_for_n_pairs", "_proportion_sample_size_link_only"})
+    from harness.translate import tsql
+
+    sql_errs = tsql.run_isolated("em")  # Generated/EMSql.lean: the counts / proportions SQL the estimators share with EM, as Rel terms (T-sql)
     ctx.lean = core.lean_check(PROP, ctx.thorough)
-    if errs:
+    if errs or sql_errs:
         ctx.lean.ok = False
-        ctx.lean.problems += ["T-arith: " + e for e in errs]
+        ctx.lean.problems += ["T-arith: " + e for e in errs] + ["T-sql: " + e for e in sql_errs]
     drv = core.Driver()
     tv_bad = translation_validation(ctx, drv)
     if ctx.replay:
